@@ -37,6 +37,7 @@ class Contract:
         ghost_updates=None,
         note="",
         kind="function",
+        cases=None,
         trusted_base=None,
         split_returns=True,
         allocates=True,
@@ -59,6 +60,7 @@ class Contract:
         self.ghost_updates = ghost_updates or {}
         self.note = note
         self.kind = kind
+        self.cases = cases  # finite case split: list of {"bind": {param: python literal}, "label": str}
         self.trusted_base = trusted_base
         self.allocates = allocates
 
@@ -84,6 +86,11 @@ class World:
         self.handlers = {}  # canonical name -> python handler(executor, state, args, kwargs, node) for builtins/externs
         self.attr_handlers = {}  # (class, attr) -> handler(executor, state, objval, node)
         self.assumptions_used: set[str] = set()
+        self.symbolic_globals: dict[int, object] = {}  # id(real object) -> type hint
+
+    def symbolic_global(self, obj, hint):
+        self.symbolic_globals[id(obj)] = hint
+        self._gkeep.append(obj)
 
     # ---- global constants for real python objects
     def const(self, obj) -> Val:
@@ -102,7 +109,12 @@ class World:
             gid = -(len(self._gid) + 1)
             self._gid[k] = gid
             self._gkeep.append(obj)
-            v = Val(mkr(gid), type(obj) if not isinstance(obj, type) else type, py=obj)
+            sym = self.symbolic_globals.get(k)
+            if sym is not None:
+                # mutable module-level state: a heap object with unknown contents (never read from the real object)
+                v = Val(mkr(gid), sym, py=None)
+            else:
+                v = Val(mkr(gid), type(obj) if not isinstance(obj, type) else type, py=obj)
             self.globals_by_id[gid] = v
         return self.globals_by_id[self._gid[k]]
 
@@ -131,11 +143,12 @@ class World:
 class SpecFun:
     """A specification function: z3 builder + native twin."""
 
-    def __init__(self, name, z3fn, pyfn=None, result=None):
+    def __init__(self, name, z3fn, pyfn=None, result=None, concrete_ok=False):
         self.name = name
         self.z3fn = z3fn  # (executor, state, [Val...]) -> Val
         self.pyfn = pyfn
         self.result = result
+        self.concrete_ok = concrete_ok  # evaluate pyfn directly when all arguments are literals
 
 
 def canonical_name(obj) -> str | None:
